@@ -557,7 +557,7 @@ Proof.
   destruct (is_static x) eqn:E; [|discriminate]. intro H; inversion H; subst. apply Z.leb_le in E. auto.
 Qed.
 
-(* ---- SDPA.check, shape part: the repair (ready/C19_04) makes every accepted match lowerable and keeps masks inside the score shape *)
+(* ---- SDPA.check, shape part: the repair (fix 9ed3615) makes every accepted match lowerable and keeps masks inside the score shape *)
 Ltac split_eqb H :=
   repeat match type of H with context [Z.eqb ?x ?y] => let E := fresh "E" in destruct (Z.eqb x y) eqn:E; simpl in H; try discriminate end.
 Ltac eqb_subst := repeat match goal with E : Z.eqb _ _ = true |- _ => apply Z.eqb_eq in E end; subst.
